@@ -232,16 +232,34 @@ Record cstate := mkCs {
   endresp   : bool                   (* Client.cmd calls EndResponse on every path after StartResponse (T1) *)
 }.
 
-Record world := mkW { w_srv : srv; w_conn : conn; w_cs : cstate; w_trace : list event }.
+(* elapsed time in units of the configured timeout: every SetDeadline (an "arming point") grants one period; a blocking
+   read that ends by the deadline spends it -- once the deadline has passed later reads fail at once and cost nothing *)
+Record clock := mkClk {
+  fresh : bool;      (* a deadline is set and has not expired yet *)
+  arms  : nat;       (* SetDeadline calls so far *)
+  spent : nat        (* periods waited out *)
+}.
+Definition clk0 : clock := mkClk false O O.
+
+Record world := mkW { w_srv : srv; w_conn : conn; w_cs : cstate; w_trace : list event; w_clk : clock }.
 
 Definition cs0f (er : bool) : cstate := mkCs false None None false false O er.
 Definition cs0 : cstate := cs0f Gen.smtp_cmd_endresponse_always.
 Definition conn0 : conn := mkConn false false false false false.
 
-Definition ev (e : event) (w : world) : world := mkW (w_srv w) (w_conn w) (w_cs w) (e :: w_trace w).
-Definition with_srv (w : world) (s : srv) : world := mkW s (w_conn w) (w_cs w) (w_trace w).
-Definition with_conn (w : world) (c : conn) : world := mkW (w_srv w) c (w_cs w) (w_trace w).
-Definition with_cs (w : world) (c : cstate) : world := mkW (w_srv w) (w_conn w) c (w_trace w).
+Definition ev (e : event) (w : world) : world := mkW (w_srv w) (w_conn w) (w_cs w) (e :: w_trace w) (w_clk w).
+Definition with_srv (w : world) (s : srv) : world := mkW s (w_conn w) (w_cs w) (w_trace w) (w_clk w).
+Definition with_conn (w : world) (c : conn) : world := mkW (w_srv w) c (w_cs w) (w_trace w) (w_clk w).
+Definition with_cs (w : world) (c : cstate) : world := mkW (w_srv w) (w_conn w) c (w_trace w) (w_clk w).
+Definition with_clk (w : world) (k : clock) : world := mkW (w_srv w) (w_conn w) (w_cs w) (w_trace w) k.
+
+(* a wait that is ended by the deadline *)
+Definition spend (w : world) : world :=
+  let k := w_clk w in
+  if fresh k then with_clk w (mkClk false (arms k) (S (spent k))) else w.
+(* SetDeadline(now + timeout) *)
+Definition grant (w : world) : world :=
+  let k := w_clk w in with_clk w (mkClk true (S (arms k)) (spent k)).
 
 Inductive prim : Type -> Type :=
 | PConnect (ssl bounded : bool) : prim (option err)   (* the dial function (implicit TLS: TCP + handshake); bounded: its
@@ -298,7 +316,7 @@ Definition do_read (w : world) : rres * world :=
   | r :: q => (RReply r, ev (ERead (armed c) (ctls c) KData) (with_srv w (set_queue s q)))
   | [] =>
       if negb (sopen s) then (REof, ev (ERead (armed c) (ctls c) KEof) w)
-      else if armed c then (RTimeout, ev (ERead true (ctls c) KTimeout) w)
+      else if armed c then (RTimeout, spend (ev (ERead true (ctls c) KTimeout) w))
       else (RHang, ev (ERead false (ctls c) KHang) (with_conn w (mkConn (opened c) (copen c) (ctls c) false true)))
   end.
 
@@ -356,7 +374,7 @@ Definition run_prim {B : Type} (p : prim B) (w : world) : B * world :=
       else if negb (sopen s) then (Some EEof, w)
       else if silent s || negb (shs s) then
         (* nobody answers the ClientHello *)
-        if armed c then (Some ETimeout, ev (EHs true) w)
+        if armed c then (Some ETimeout, spend (ev (EHs true) w))
         else (Some EHang, ev (EHs false) (with_conn w (mkConn (opened c) (copen c) (ctls c) false true)))
       else match hs s, mute s with
       | HsOk, None =>
@@ -365,12 +383,12 @@ Definition run_prim {B : Type} (p : prim B) (w : world) : B * world :=
       | HsFail, None => (Some ETls, ev (EHs (armed c)) (with_srv w (set_sopen (set_shs s false) false)))
       | _, _ =>
           let w1 := with_srv w (set_silent (set_shs s false) true) in
-          if armed c then (Some ETimeout, ev (EHs true) w1)
+          if armed c then (Some ETimeout, spend (ev (EHs true) w1))
           else (Some EHang, ev (EHs false) (with_conn w1 (mkConn (opened c) (copen c) (ctls c) false true)))
       end
   | PArm =>
       let c := w_conn w in
-      if copen c then (true, ev EArm (with_conn w (mkConn (opened c) (copen c) (ctls c) true (hung c))))
+      if copen c then (true, grant (ev EArm (with_conn w (mkConn (opened c) (copen c) (ctls c) true (hung c)))))
       else (false, w)
   | PConnClose => (tt, do_close w)
   | PClientClose =>
@@ -798,6 +816,13 @@ Fixpoint rcpts (n : nat) (bad : bool) : prog bool :=
   | S m => r <- cmd 25 VRcpt ;; rcpts m (match r with Err _ => true | Ok _ => bad end)
   end.
 
+(* NOT what the source does (documentation for C17_time_budget): the deadline renewed before every RCPT *)
+Fixpoint rcpts_rearming (n : nat) (bad : bool) : prog bool :=
+  match n with
+  | O => Ret bad
+  | S m => prim1 PArm ;;; r <- cmd 25 VRcpt ;; rcpts_rearming m (match r with Err _ => true | Ok _ => bad end)
+  end.
+
 (* a failed RSET after a failed MAIL / RCPT / DATA: the connection is not reused (client.Close()) *)
 Definition abort_if_failed (cfg : config) (r : res unit) : prog unit :=
   match r with
@@ -919,7 +944,7 @@ Definition session2 (fuel : nat) (cfg : config) (msgs : list nat) : prog (list (
 Definition srv0 (sc : list decision) (mu : option nat) (cp cpt : list bytes) (h : hs_oracle) : srv :=
   mkSrv sc mu cp cpt h true false None false false false [] [] O.
 
-Definition world0 (s : srv) : world := mkW s conn0 cs0 [].
+Definition world0 (s : srv) : world := mkW s conn0 cs0 [] clk0.
 
 (* a bound on the number of AUTH round trips: every trip consumes a decision or a pending prompt, and the
    reply to a continuation line after the script is exhausted is 500 *)
